@@ -439,3 +439,69 @@ func GuardedIndex(i int) int {
 	}
 	return -1
 }
+
+// ---- second review round ----
+
+var lockerGuard sync.Locker = &sync.Mutex{}
+var lockerMap = map[string]int{}
+
+func LockerGet(k string) int {
+	lockerGuard.Lock() // a lock taken through the sync.Locker interface
+	defer lockerGuard.Unlock()
+	v, ok := lockerMap[k]
+	if !ok {
+		v = len(k)
+		lockerMap[k] = v
+	}
+	return v
+}
+
+var mvMu sync.Mutex
+var mvCount int
+
+func MethodValueUnlock() int {
+	mvMu.Lock()
+	unlock := mvMu.Unlock // method value of a sync primitive
+	defer unlock()
+	mvCount++
+	return mvCount
+}
+
+func fill(wg *sync.WaitGroup, out []int, i int) bool {
+	defer wg.Done()
+	out[i] = i + 1
+	return true
+}
+
+func GoWithResult() int {
+	out := make([]int, 3)
+	var wg sync.WaitGroup
+	for i := range out {
+		wg.Add(1)
+		go fill(&wg, out, i) // the callee returns a value
+	}
+	wg.Wait()
+	return out[0] + out[1] + out[2]
+}
+
+type entry struct {
+	once sync.Once
+	r    int
+}
+
+var entries = struct {
+	mu sync.Mutex
+	m  map[string]*entry
+}{m: map[string]*entry{}}
+
+func EntryOnce(k string) int {
+	entries.mu.Lock()
+	e := entries.m[k]
+	if e == nil {
+		e = &entry{}
+		entries.m[k] = e
+	}
+	entries.mu.Unlock()
+	e.once.Do(func() { e.r = len(k) * 2 }) // computed outside the table lock
+	return e.r
+}
